@@ -35,7 +35,9 @@ def _set_response(body):
     # as a "Protocol Error", we'll just return 200 every time.
     response = cherrypy.response
     response.status = '200 OK'
-    response.body = ntob(body, 'utf-8')
+    # Content-Length counts the bytes sent, not the characters of the text.
+    body = ntob(body, 'utf-8')
+    response.body = body
     response.headers['Content-Type'] = 'text/xml'
     response.headers['Content-Length'] = len(body)
 
